@@ -58,6 +58,8 @@ def tasks(tier, seed):
     P += families.pack(families.select(families.func_family(), 24 if tier == "quick" else None, seed), "FUNC", per=3)
     P += families.layout_family()
     P += families.corpus(["lorentz.ode", "fitzhughnagumo.ode"] if tier == "quick" else ["lorentz.ode", "fitzhughnagumo.ode", "beeler_reuter_1977.ode"])
+    from .. import gen
+    P += gen.programs(tier, seed, 60, 600, "std")
     return [dict(p, opts={}) for p in P] + witness_tasks(PROP)
 
 
